@@ -3,6 +3,14 @@ let side_s = function Client -> "client" | Server -> "server"
 let dir_s = function Bi -> "bi" | Uni -> "uni"
 let b2 x = if x then "1" else "0"
 let two62 = n_of_string "4611686018427387904"
+(* non-contiguous inputs: `aa.bbcc.dd` = three chunks (empty chunks are dropped, as h3v::ChunkBuf::new does); the model
+   column runs the decoders of Model/ChunkedVarint.v on the chunk list and prints the chunks of the buffer left behind *)
+let chunks_of s = if s = "-" then [] else List.filter (fun c -> c <> []) (List.map bytes_of_hex (String.split_on_char '.' s))
+let chunks_str cs = if cs = [] then "-" else String.concat "." (List.map hex_of_bytes cs)
+let buf_result r = match r with
+  | (Ok v, rest) -> "ok " ^ string_of_n v ^ " " ^ chunks_str rest
+  | (Err e, rest) -> "err " ^ string_of_n e ^ " " ^ chunks_str rest
+  | (Panic s, _) -> "panic " ^ string_of_n s
 let rec handle ws = match ws with
   | [("vi.try64" | "vi.tryus" | "vi.push") as fam; x] ->
       let xn = n_of_string x in
@@ -20,22 +28,14 @@ let rec handle ws = match ws with
       m ^ " | " ^ s
   | ["vi.gvar"; _; chunks] ->
       let flat = String.concat "" (List.filter (fun c -> c <> "-") (String.split_on_char '.' chunks)) in
-      let bs = bytes_of_hex (if flat = "" then "-" else flat) in
-      let m = (match vi_get_var bs with
-        | (Ok v, rest) -> "ok " ^ string_of_n v ^ " " ^ hex_of_bytes rest
-        | (Err e, rest) -> "err " ^ string_of_n e ^ " " ^ hex_of_bytes rest
-        | (Panic s, _) -> "panic " ^ string_of_n s) in
+      let m = buf_result (vi_get_var_buf (chunks_of chunks)) in
       let sp = handle ["vi.dec"; (if flat = "" then "-" else flat)] in
       let i = (try String.index sp '|' with Not_found -> 0) in
       m ^ " | " ^ String.trim (String.sub sp (i + 1) (String.length sp - i - 1))
   | [("vi.sessd" | "st.dec") as fam; chunks] ->
       (* Decode for SessionId / StreamType on a (possibly non-contiguous) buffer: same oracle as vi.dec *)
       let flat = String.concat "" (List.filter (fun c -> c <> "-") (String.split_on_char '.' chunks)) in
-      let bs = bytes_of_hex (if flat = "" then "-" else flat) in
-      let m = (match (if fam = "st.dec" then st_decode bs else sess_decode bs) with
-        | (Ok v, rest) -> "ok " ^ string_of_n v ^ " " ^ hex_of_bytes rest
-        | (Err e, rest) -> "err " ^ string_of_n e ^ " " ^ hex_of_bytes rest
-        | (Panic s, _) -> "panic " ^ string_of_n s) in
+      let m = buf_result (if fam = "st.dec" then st_decode_buf (chunks_of chunks) else sess_decode_buf (chunks_of chunks)) in
       let sp = handle ["vi.dec"; (if flat = "" then "-" else flat)] in
       let i = (try String.index sp '|' with Not_found -> 0) in
       m ^ " | " ^ String.trim (String.sub sp (i + 1) (String.length sp - i - 1))
@@ -89,7 +89,10 @@ let rec handle ws = match ws with
       m ^ " | " ^ s
   | ["vi.decc"; chunks] ->
       let flat = String.concat "" (List.filter (fun c -> c <> "-") (String.split_on_char '.' chunks)) in
-      handle ["vi.dec"; (if flat = "" then "-" else flat)]
+      let m = buf_result (vi_decode_buf (chunks_of chunks)) in
+      let sp = handle ["vi.dec"; (if flat = "" then "-" else flat)] in
+      let i = (try String.index sp '|' with Not_found -> 0) in
+      m ^ " | " ^ String.trim (String.sub sp (i + 1) (String.length sp - i - 1))
   | ["vi.enc"; x] ->
       let x = n_of_string x in
       let m = (match vi_from_u64 x with
